@@ -1041,6 +1041,7 @@ func init() {
 
 func runRoundOnce(m *model.Model, s *ob.Set) {
 	const R = "ROUNDONCE"
+	runExactOperands(m, s)
 	for _, n := range []string{"Add", "Sub", "Mul", "Quo", "Set", "SetInt", "SetInt64", "SetUint64", "setBits64", "SetRat", "SetMantExp", "SetBitsExp", "Neg", "Abs", "umul", "uquo", "uadd", "usub"} {
 		fn := m.TryLookup("(*Decimal)." + n)
 		if fn == nil {
@@ -1416,6 +1417,94 @@ func runWorkPrec(m *model.Model, s *ob.Set) {
 			s.Ok(R, m.FuncName(fn), m.Pos(fn.Pos()), fmt.Sprintf("%d computed SetPrec argument(s), none derived from MinPrec()", n))
 		} else {
 			s.Bad(R, m.FuncName(fn), m.Pos(fn.Pos()), bad[0], bad[1:]...)
+		}
+	}
+}
+
+// runExactOperands: a temporary Decimal that an operation fills from an integer (SetInt, SetInt64,
+// SetUint64 — exact when the temporary has no precision of its own) in order to use it as an
+// operand must not have been given a precision first: the conversion would round, and the
+// operation that follows rounds again (SetRat's numerator and denominator).
+func runExactOperands(m *model.Model, s *ob.Set) {
+	const R = "ROUNDONCE"
+	for _, fn := range m.Funcs {
+		if !m.InDecimalPkg(fn) || len(fn.Blocks) == 0 || fn.Synthetic != "" {
+			continue
+		}
+		live := m.Live(fn)
+		n := 0
+		var bad []string
+		for _, b := range fn.Blocks {
+			if !live[b.Index] {
+				continue
+			}
+			for _, in := range b.Instrs {
+				call, ok := in.(*ssa.Call)
+				if !ok {
+					continue
+				}
+				cal := call.Call.StaticCallee()
+				if cal == nil || len(call.Call.Args) == 0 {
+					continue
+				}
+				switch m.FuncName(cal) {
+				case "(*Decimal).SetInt", "(*Decimal).SetInt64", "(*Decimal).SetUint64":
+				default:
+					continue
+				}
+				r := m.RefOf(call.Call.Args[0])
+				if !r.Fresh || r.Params != 0 || r.Global || r.Unknown || len(r.Allocs) != 1 {
+					continue
+				}
+				// a small constant (the 2 of pow2's squaring loop) is exact at any precision
+				if len(call.Call.Args) == 2 {
+					if _, isK := model.ConstInt(call.Call.Args[1]); isK {
+						continue
+					}
+				}
+				n++
+				al := r.Allocs[0]
+				// a precision given to the same object in front of the conversion
+				for _, b2 := range fn.Blocks {
+					if !live[b2.Index] {
+						continue
+					}
+					for _, in2 := range b2.Instrs {
+						if in2 == in || !m.Reaches(in2, in) {
+							continue
+						}
+						if c2, ok := in2.(*ssa.Call); ok {
+							if k2 := c2.Call.StaticCallee(); k2 != nil && m.FuncName(k2) == "(*Decimal).SetPrec" && len(c2.Call.Args) == 2 {
+								r2 := m.RefOf(c2.Call.Args[0])
+								if len(r2.Allocs) == 1 && r2.Allocs[0] == al {
+									if k, isK := model.ConstInt(c2.Call.Args[1]); !isK || k != 0 {
+										bad = append(bad, fmt.Sprintf("%s: the temporary is given a precision (%s) and then filled from an integer at %s: the integer is rounded before it is used as an operand", m.InstrPos(in2), exprKey(m, c2.Call.Args[1], 3), m.InstrPos(in)))
+									}
+								}
+							}
+						}
+						if st, ok := in2.(*ssa.Store); ok {
+							if fa, ok := m.DecField(st.Addr); ok && fa.Field == m.F.Prec {
+								r2 := m.RefOf(fa.X)
+								if len(r2.Allocs) == 1 && r2.Allocs[0] == al {
+									if k, isK := model.ConstInt(st.Val); !isK || k != 0 {
+										bad = append(bad, fmt.Sprintf("%s: the temporary's precision is set and it is then filled from an integer at %s", m.InstrPos(in2), m.InstrPos(in)))
+									}
+								}
+							}
+						}
+					}
+				}
+			}
+		}
+		if n == 0 {
+			continue
+		}
+		c := m.FuncName(fn) + "/exact-operands"
+		if len(bad) == 0 {
+			s.Ok(R, c, m.Pos(fn.Pos()), fmt.Sprintf("%d temporar(ies) filled from an integer, none given a precision first", n))
+		} else {
+			s.Bad(R, c, m.Pos(fn.Pos()), bad[0]+": the operation rounds twice (operands first, then the result)", bad[1:]...)
 		}
 	}
 }
